@@ -72,11 +72,21 @@ type Contract struct {
 	Results  []string // for extern: result names
 	Asserts  map[string]*Clause
 	Bounded  int
+	GhostAdds []GhostAdd // `ghostadd <set> <object expr> <element expr>`: the call adds the element to the object's ghost set
+	NoSafety bool    // `nosafety`: panic-freedom / overflow obligations of this function are assumed, not claimed
+	NoAlloc  bool    // the callee allocates nothing the caller can observe (results point to existing objects)
 	Function *Clause // `function <expr>`: the (single) result is exactly this expression of the arguments and the heap
 	AllocBound *Clause // every make([]T, n) reached from the function satisfies n <= AllocBound
 	Used     bool
 	Opaque   []string
 	Excluding []*Clause // known-finding exclusions applied to specific obligations: "oblname := expr"
+}
+
+// GhostAdd: effect clause of a (trusted) contract on a named ghost set attached to an object.
+type GhostAdd struct {
+	Set  string
+	Obj  *Clause
+	Elem *Clause
 }
 
 type Pred struct {
@@ -397,7 +407,7 @@ var loopRe = regexp.MustCompile(`^loop\s+([0-9]+)\s*:\s*(invariant|decreases)\s+
 
 var clauseKeywords = map[string]bool{"func": true, "extern": true, "pred": true, "lemma": true, "axiom": true, "requires": true, "ensures": true,
 	"assigns": true, "pure": true, "wrapping": true, "trusted": true, "inline": true, "props": true, "loop": true, "let": true,
-	"induct": true, "uses": true, "bounded": true, "excluding": true, "global-inv": true, "binding": true, "except": true, "allocbound": true, "function": true}
+	"induct": true, "uses": true, "bounded": true, "excluding": true, "global-inv": true, "binding": true, "except": true, "allocbound": true, "function": true, "noalloc": true, "ghostadd": true, "nosafety": true}
 
 func parseContractFile(path string, pkgPath string) (*ContractFile, error) {
 	f, err := os.Open(path)
@@ -575,6 +585,30 @@ func parseContractFile(path string, pkgPath string) (*ContractFile, error) {
 				return nil, err
 			}
 			cur.AllocBound = c
+		case kw == "ghostadd":
+			// ghostadd <set> <object> <element>   (object and element are spec expressions separated by " , ")
+			fs := strings.SplitN(rest, " ", 2)
+			if len(fs) != 2 {
+				return nil, fmt.Errorf("%s:%d: bad ghostadd", path, rl.line)
+			}
+			parts := splitTop(fs[1], ",")
+			if len(parts) != 2 {
+				return nil, fmt.Errorf("%s:%d: ghostadd needs <object>, <element>", path, rl.line)
+			}
+			oc, err := mk(parts[0], rl.line)
+			if err != nil {
+				return nil, err
+			}
+			ec, err := mk(parts[1], rl.line)
+			if err != nil {
+				return nil, err
+			}
+			cur.GhostAdds = append(cur.GhostAdds, GhostAdd{Set: fs[0], Obj: oc, Elem: ec})
+			cur.HasFrame = true
+		case kw == "nosafety":
+			cur.NoSafety = true
+		case kw == "noalloc":
+			cur.NoAlloc = true
 		case kw == "pure":
 			cur.Pure = true
 			cur.HasFrame = true
